@@ -127,7 +127,18 @@ def run_impl(c):
         def arr(d):
             shape = {0: (), 1: (d["len"],), 2: (d["len"], 2)}[d["ndim"]]
             return np.zeros(shape, np.dtype(d["dtype"]))
-        return vf.try_impl(lambda: (XYData(arr(c["x"]), arr(c["y"])), 0)[1])
+        def build():
+            x, y = arr(c["x"]), arr(c["y"])
+            via = c.get("via", "ctor")
+            if via == "ctor":
+                obj = XYData(x, y)
+            else:
+                # the factory given two arrays and no dtype: the same two arrays, the same refusals
+                obj = XYData.from_arrays_1d(x, y, copy=(via == "factory_copy"))
+            if obj.x_data.dtype != x.dtype or obj.y_data.dtype != y.dtype or obj.x_data.shape != x.shape or obj.y_data.shape != y.shape:
+                raise RuntimeError("the axes are not the arrays given")
+            return 0
+        return vf.try_impl(build)
     if k == "xyeq":
         def f():
             from nitypes.xy_data import XYData
@@ -220,7 +231,7 @@ def to_coq(c, r):
     if k == "sinit":
         return "ScalarInit %s %s" % (_svc(c["v"]), "(Raise %s)" % r["exc"] if "exc" in r else "(Ok tt)")
     if k == "xy":
-        return "XYCtor %s %s %s" % (_arrd(c["x"]), _arrd(c["y"]), "(Raise %s)" % r["exc"] if "exc" in r else "(Ok tt)")
+        return "%s %s %s %s" % ("XYCtor" if c.get("via", "ctor") == "ctor" else "XYFactory", _arrd(c["x"]), _arrd(c["y"]), "(Raise %s)" % r["exc"] if "exc" in r else "(Ok tt)")
     if k == "xyeq":
         if "exc" in r:
             return "XYEq true true true true false"      # == raised: never acceptable
@@ -294,7 +305,8 @@ def gen_cases(rng, tier):
         dy = dx if rng.random() < 0.8 else rng.choice(DTYPES)
         nx = rng.choice([0, 1, 1, 1, 2]); ny = rng.choice([0, 1, 1, 1, 2])
         lx = rng.choice([0, 1, 2, 3]); ly = lx if rng.random() < 0.7 else rng.choice([0, 1, 2, 3])
-        cases.append({"k": "xy", "x": {"ndim": nx, "len": lx, "dtype": dx}, "y": {"ndim": ny, "len": ly, "dtype": dy}})
+        cases.append({"k": "xy", "x": {"ndim": nx, "len": lx, "dtype": dx}, "y": {"ndim": ny, "len": ly, "dtype": dy},
+                      "via": rng.choice(["ctor", "ctor", "factory_copy", "factory_nocopy"])})
     for m in range(16):
         cases.append({"k": "xyeq", "sx": bool(m & 1), "sy": bool(m & 2), "sxu": bool(m & 4), "syu": bool(m & 8)})
     for shape in ("rep", "empty", "23", "rep_r"):
